@@ -125,6 +125,7 @@ func encodeGrpcMessage(msg string) string {
 	if pos == 0 {
 		return msg
 	}
+	sb.WriteString(msg[pos:]) // what follows the last escaped byte
 	return sb.String()
 }
 
